@@ -13,6 +13,26 @@ use std::path::{Path, PathBuf};
 
 pub struct C20;
 
+fn deep_shapes() -> Vec<super::c09::Shape> {
+    use super::c09::*;
+    let mut v = Vec::new();
+    for d in [1usize, 15, 16, 63, 64, 65, 66, 70] {
+        v.push(include_chain(d));
+    }
+    for d in [1usize, 63, 64, 65, 66] {
+        v.push(macro_chain(d));
+    }
+    for n in [1usize, 2, 3] {
+        v.push(include_cycle(n));
+        v.push(mixed_cycle(n));
+    }
+    v.push(macro_cycle(1));
+    v.push(mixed_chain(64, 64));
+    v.push(mixed_chain(2, 65));
+    v.push(interleaved_chain(32));
+    v
+}
+
 fn defs_repr(d: &Defs) -> Vec<(String, String)> {
     let mut v: Vec<(String, String)> = d.iter().map(|(k, v)| (k.clone(), format!("{:?}", v))).collect();
     v.sort();
@@ -130,7 +150,7 @@ impl Prop for C20 {
     }
     fn rule(&self) -> String {
         "cases: (pp) generated preprocessor file trees written to disk with caller defines and include paths; (sv) generated SystemVerilog programs whose top file holds a \
-         comment, a macro and an `include of a second file; (lib) generated library maps with comments and an `include. For each: preprocess(path, d, i, strip, ign) vs \
+         comment, a macro and an `include of a second file; (lib) generated library maps with comments and an `include; (deep) include / macro chains and cycles around the recursion limit, file vs. string entry in child processes. For each: preprocess(path, d, i, strip, ign) vs \
          preprocess_str(read(path), path, d, i, ign, strip, 0, 0) for all four flag values; parse_sv / parse_lib (path) vs *_str(contents) vs preprocess + *_pp vs \
          preprocess_str + *_pp for all four (ignore_include, allow_incomplete) values. Compared: text, origin at every position, define table with origins, Debug of the tree, \
          get_origin of every leaf, Debug of the error. Non-trivial: the input has a comment and an `include (each boolean then changes the result on its own); distinct by digest."
@@ -144,11 +164,45 @@ impl Prop for C20 {
             Campaign { name: "pp", kind: Kind::Random { quick: 4000, thorough: 50000 }, tape_len: 500 },
             Campaign { name: "sv", kind: Kind::Random { quick: 1200, thorough: 15000 }, tape_len: 600 },
             Campaign { name: "lib", kind: Kind::Random { quick: 1500, thorough: 15000 }, tape_len: 200 },
+            Campaign { name: "deep", kind: Kind::Enumerated { count: deep_shapes().len() }, tape_len: 1 },
         ]
     }
     fn run(&self, ctx: &Ctx, campaign: &str, t: &mut Tape, st: &mut Stats) -> Result<(), Fail> {
         st.eval();
         match campaign {
+            "deep" => {
+                // include / macro nesting around the recursion limit: the file and the string entry point must agree
+                // (run in child processes: a broken bound must not take the harness down)
+                let shapes = deep_shapes();
+                let shape = &shapes[t.raw() as usize % shapes.len()];
+                let dir = format!("{}/c20deep", run::thread_dir(&ctx.scratch));
+                let _ = std::fs::remove_dir_all(&dir);
+                std::fs::create_dir_all(&dir).map_err(|e| Fail::new(format!("harness: {}", e), json!({"infrastructure": true})))?;
+                for (name, text) in &shape.files {
+                    std::fs::write(Path::new(&dir).join(name), text).map_err(|e| Fail::new(format!("harness: {}", e), json!({"infrastructure": true})))?;
+                }
+                let by_file = json!({"top_path": format!("{}/top.sv", dir), "include_paths": [dir], "ignore_include": false});
+                let by_str = json!({"top_path": format!("{}/top.sv", dir), "top_text": shape.files[0].1, "include_paths": [dir], "ignore_include": false});
+                let mut outs = Vec::new();
+                for spec in [&by_file, &by_str] {
+                    let r = super::c09::run_child(spec, Path::new(&dir), 60).map_err(|e| Fail::new(format!("harness: child: {}", e), json!({"infrastructure": true})))?;
+                    outs.push(match r {
+                        super::c09::ChildResult::Json(v) => v.to_string(),
+                        super::c09::ChildResult::Crashed(s) => format!("crashed: {}", s),
+                        super::c09::ChildResult::TimedOut => {
+                            return Err(Fail::new(format!("harness: watchdog expired on {}", shape.name), json!({"infrastructure": true})));
+                        }
+                    });
+                }
+                if outs[0] != outs[1] {
+                    return Err(Fail::new(
+                        format!("{}: preprocess(path) and preprocess_str(contents, path) disagree: {} vs {}", shape.name, clip(&outs[0], 300), clip(&outs[1], 300)),
+                        json!({"shape": shape.name, "top": clip(&shape.files[0].1, 300)}),
+                    ));
+                }
+                st.class("nesting around the recursion limit: entry points agree");
+                st.nontrivial(digest(shape.name.as_bytes()), || json!({"campaign": "deep", "shape": shape.name}));
+            }
             "pp" => {
                 let mut cfg = PpCfg::full();
                 cfg.max_items = 6;
